@@ -44,7 +44,7 @@ class Grid(col.MutableSequence):
         self.metadata = MetadataObject(validate_fn=self._detect_or_validate)
 
         # The columns
-        self.column = SortableDict()
+        self.column = SortableDict(validate_fn=self._validate_column)
 
         # Rows
         self._row = []
@@ -274,6 +274,15 @@ class Grid(col.MutableSequence):
             if limit and len(result)==limit:
                 break
         return result
+
+    def _validate_column(self, col_meta):
+        '''
+        Metadata assigned to a column follows the same version rules as
+        everything else stored in the grid.
+        '''
+        if isinstance(col_meta, dict) or isinstance(col_meta, SortableDict):
+            for val in col_meta.values():
+                self._detect_or_validate(val)
 
     def _detect_or_validate(self, val):
         '''
